@@ -107,17 +107,17 @@ type vfwProxy struct {
 }
 
 type vfwHarness struct {
-	mu      sync.Mutex
-	enc     *json.Encoder
-	seq     int
-	runNo   int
-	cur     *vfwRun
-	srcSrv  *grpc.Server
-	srcAddr string
+	mu       sync.Mutex
+	enc      *json.Encoder
+	seq      int
+	runNo    int
+	cur      *vfwRun
+	srcSrv   *grpc.Server
+	srcAddr  string
 	deadAddr string
-	proxies map[string]*vfwProxy
-	leaked  map[int64]bool
-	slow    int
+	proxies  map[string]*vfwProxy
+	leaked   map[int64]bool
+	slow     int
 }
 
 func (h *vfwHarness) emit(ev map[string]interface{}) { // caller holds h.mu
@@ -514,17 +514,28 @@ func (h *vfwHarness) runSchedule(sc *vfwSched) {
 	torn := func() bool { return r.handlerReturned && r.iniEnded && (!r.srcOpened || r.srcReturn) }
 	delivered := func() bool { return r.iniGot == r.srcSent && r.srcGot == r.iniSent }
 	nSrc, nIni := 0, 0
+	expired := false
 	for i, c := range sc.Cmds {
 		if sc.Sync {
 			// delivery barrier: everything sent so far has arrived; once an end has happened: everything is torn down
 			ended := false
-			ok := h.waitFor(r, func() bool {
+			cond := func() bool {
 				ended = r.ended
 				if r.ended {
 					return torn()
 				}
 				return delivered()
-			})
+			}
+			ok := false
+			if expired {
+				// a barrier of this run has already run into the deadline: report the state as it is, do not wait again
+				h.mu.Lock()
+				ok = cond()
+				h.mu.Unlock()
+			} else {
+				ok = h.waitFor(r, cond)
+			}
+			expired = expired || !ok
 			h.note(r, map[string]interface{}{"ev": "Barrier", "i": i + 1, "ok": ok, "ended": ended}, nil)
 		}
 		h.mu.Lock()
@@ -632,8 +643,8 @@ func (h *vfwHarness) runSchedule(sc *vfwSched) {
 	for _, c := range sc.Cmds {
 		lifetimeUsed = lifetimeUsed || c.C == "L"
 	}
-	if !ok || stuck > 0 {
-		h.slow++
+	if !ok || stuck > 0 || expired {
+		h.slow++ // a wait of this run ran into its deadline
 	}
 	h.mu.Lock()
 	h.cur = nil
